@@ -1,11 +1,19 @@
 // Package c14: concurrent renders are isolated and race-free.
-//  (a) in-process: the observable trace of ONE real render (writer bytes / buffered bytes after every action, which
-//      Buffer it got, whether that Buffer can be obtained from the pool while in use) against the model's trace;
-//      renders after a stale Buffer (unflushed bytes, sticky error, somebody else's writer) was planted in the pool;
-//      the development-mode cache against the model over file rewrites;
-//  (b) a subprocess built with -race: N goroutines x M renders of shared components, once handles, handlers, slow
-//      and failing writers, with and without TEMPL_DEV_MODE=true; every goroutine's bytes against its sequential
-//      reference and against the model's stand-alone output; a race report or a differing output is the replay.
+//
+//	(a) in-process: the observable trace of ONE real render (writer bytes / buffered bytes after every action, which
+//	    Buffer it got, whether that Buffer can be obtained from the pool while in use) against the model's trace;
+//	    renders after a stale Buffer (unflushed bytes, sticky error, somebody else's writer) was planted in the pool;
+//	    the development-mode cache against the model over file rewrites;
+//	(a4) in-process, interleaved on an explicit schedule (one goroutine moves at a time, down to single ops of a render):
+//	    2-4 goroutines with destinations of several dynamic types (sink, their own bufio.Writer of any size that they keep
+//	    and write a header / trailer to themselves, a templ Buffer they hold, a bytes.Buffer), requests through ONE
+//	    CSS-middleware instance with registered and unregistered classes and script templates, nonces, pool entries
+//	    thrown away or collected in between; every move must leave the other goroutines' destinations untouched
+//	    (C14_others_untouched) and every goroutine must end with its stand-alone document (C14_isolation);
+//	(b) a subprocess built with -race: N goroutines x M renders of shared components, once handles, handlers, slow
+//	    and failing writers, the same destination kinds and middleware requests in bursts on new middleware instances,
+//	    with and without TEMPL_DEV_MODE=true; every goroutine's bytes against its sequential
+//	    reference and against the model's stand-alone output; a race report or a differing output is the replay.
 package c14
 
 import (
@@ -20,6 +28,7 @@ import (
 	"runtime/debug"
 	"strconv"
 	"strings"
+	"sync/atomic"
 	"time"
 
 	"github.com/a-h/templ"
@@ -46,7 +55,7 @@ var lits = []string{"<div class=a>", "</div>", "<p>", "</p>", "<hr>"}
 var devLits = []string{"[dev-div]", "[/dev-div]", "[dev-p]", "[/dev-p]", "[dev-hr]"}
 
 // ---------- op lists -> model actions ----------
-func compileOps(sc *probe.Scenario, ops []probe.Op, dev bool) [][]byte {
+func compileOps(sc *probe.Scenario, ops []probe.Op, dev bool, nonce string) [][]byte {
 	var out [][]byte
 	for _, op := range ops {
 		switch op.K {
@@ -63,13 +72,15 @@ func compileOps(sc *probe.Scenario, ops []probe.Op, dev bool) [][]byte {
 				out = append(out, []byte("W"+s))
 			}
 		case "O":
-			body := compileOps(sc, op.Body, dev)
+			body := compileOps(sc, op.Body, dev, nonce)
 			out = append(out, []byte(fmt.Sprintf("O%d,%d", op.H, len(body))))
 			out = append(out, body...)
 		case "N", "E", "F":
 			out = append(out, []byte(op.K))
 		case "C":
-			out = append(out, compileOps(sc, sc.Comps[op.I], dev)...)
+			out = append(out, compileOps(sc, sc.Comps[op.I], dev, nonce)...)
+		case "S":
+			out = append(out, []byte(fmt.Sprintf("S%d,%s", op.I, probe.ItemElement(sc.Items[op.I], nonce))))
 		}
 	}
 	return out
@@ -77,17 +88,61 @@ func compileOps(sc *probe.Scenario, ops []probe.Op, dev bool) [][]byte {
 
 func compileGoroutine(sc *probe.Scenario, g probe.Goroutine, dev bool) [][]byte {
 	var acts [][]byte
-	for _, r := range g.Renders {
-		body := compileOps(sc, sc.Comps[r.C], dev)
-		if r.Handler {
-			acts = append(acts, []byte("B"), []byte("b"), []byte("G"))
-			acts = append(acts, body...)
-			acts = append(acts, []byte("R"), []byte("d"), []byte("r"))
-		} else {
-			acts = append(acts, []byte("B"), []byte("G"))
-			acts = append(acts, body...)
-			acts = append(acts, []byte("R"))
+	add := func(xs ...string) {
+		for _, x := range xs {
+			acts = append(acts, []byte(x))
 		}
+	}
+	ownBufio := g.Dest == probe.DestBufioBig || g.Dest == probe.DestBufioSmall
+	switch {
+	case ownBufio:
+		add("w")
+	case g.Dest == probe.DestOwnBuffer:
+		add("G")
+	}
+	var regs []string
+	for _, i := range sc.Registered {
+		regs = append(regs, strconv.Itoa(i))
+	}
+	mid := "M" + strings.Join(regs, ",")
+	for _, r := range g.Renders {
+		if r.Head != "" {
+			add("o" + r.Head)
+		}
+		body := compileOps(sc, sc.Comps[r.C], dev, g.Nonce)
+		switch {
+		case g.Dest == probe.DestOwnBuffer:
+			add("B")
+			acts = append(acts, body...)
+		case r.Mw && r.Handler:
+			add("B", mid, "b", "G")
+			acts = append(acts, body...)
+			add("R", "d", "r")
+		case r.Mw:
+			add("B", mid, "G")
+			acts = append(acts, body...)
+			add("R")
+		case r.Handler:
+			add("B", "b", "G")
+			acts = append(acts, body...)
+			add("R", "d", "r")
+		default:
+			add("B", "G")
+			acts = append(acts, body...)
+			add("R")
+		}
+		if r.Tail != "" {
+			add("o" + r.Tail)
+		}
+		if r.Flush && ownBufio {
+			add("f")
+		}
+	}
+	switch {
+	case ownBufio:
+		add("f")
+	case g.Dest == probe.DestOwnBuffer:
+		add("R")
 	}
 	return acts
 }
@@ -116,7 +171,7 @@ func genOps(r *rng.R, sc *probe.Scenario, self int, depth int, small bool) []pro
 	n := 1 + r.Intn(6)
 	var ops []probe.Op
 	for i := 0; i < n; i++ {
-		switch k := r.Intn(20); {
+		switch k := r.Intn(24); {
 		case k < 7:
 			ops = append(ops, probe.Op{K: "W", S: fmt.Sprintf("c%d.%d:%s;", self, i, strings.Repeat("x", r.Intn(12)))})
 		case k < 11:
@@ -137,6 +192,13 @@ func genOps(r *rng.R, sc *probe.Scenario, self int, depth int, small bool) []pro
 			ops = append(ops, probe.Op{K: "F"})
 		case k < 19 && self > 0 && depth == 0:
 			ops = append(ops, probe.Op{K: "C", I: r.Intn(self)})
+		case k < 23 && len(sc.Items) > 0:
+			// a CSS component or a script template; the same one again soon after, so that suppression matters
+			it := r.Intn(len(sc.Items))
+			ops = append(ops, probe.Op{K: "S", I: it})
+			if r.Intn(3) == 0 {
+				ops = append(ops, probe.Op{K: "S", I: it})
+			}
 		default:
 			if !small && r.Intn(3) == 0 {
 				ops = append(ops, probe.Op{K: "W", S: fmt.Sprintf("big%d:", self) + strings.Repeat("ab", 1200+r.Intn(1500))})
@@ -148,9 +210,40 @@ func genOps(r *rng.R, sc *probe.Scenario, self int, depth int, small bool) []pro
 	return ops
 }
 
+// genItems: CSS components and script templates; item 1 is a script whose name is item 0's class id.
+func genItems(r *rng.R) ([]probe.Item, []int) {
+	n := 4 + r.Intn(3)
+	var its []probe.Item
+	var regs []int
+	for i := 0; i < n; i++ {
+		id := fmt.Sprintf("c14i%d_%04x", i, r.Intn(65536))
+		if i == 1 {
+			id = its[0].ID
+		}
+		if i == 1 || (i > 1 && r.Intn(3) == 0) {
+			its = append(its, probe.Item{Kind: "script", ID: id, Body: fmt.Sprintf("function %s(){return %d}", id, i)})
+			continue
+		}
+		its = append(its, probe.Item{Kind: "class", ID: id, Body: fmt.Sprintf(".%s{order:%d;}", id, i)})
+		if r.Intn(2) == 0 {
+			regs = append(regs, i)
+		}
+	}
+	if len(regs) == 0 && r.Intn(5) != 0 {
+		regs = append(regs, 0)
+	}
+	return its, regs
+}
+
+var bigBufio = []int{4096, 4096, 8192, 65536}
+var smallBufio = []int{16, 64, 1000, 4095}
+
 // genScenario: nSmall components that keep a render's buffered bytes far below bufio's 4096, then nBig that may exceed it.
-func genScenario(r *rng.R, nGor, nRenders int, touch bool) *probe.Scenario {
+// rich: the goroutines also differ in the kind of destination they hand to their renders, send some requests through
+// the CSS middleware, write headers / trailers themselves, use a nonce, and throw pool entries away between renders.
+func genScenario(r *rng.R, nGor, nRenders int, touch bool, rich bool) *probe.Scenario {
 	sc := &probe.Scenario{Handles: 3, Lits: lits, DevLits: devLits, Touch: touch}
+	sc.Items, sc.Registered = genItems(r)
 	nSmall, nBig := 6+r.Intn(4), 2
 	for i := 0; i < nSmall+nBig; i++ {
 		sc.Comps = append(sc.Comps, nil)
@@ -166,9 +259,31 @@ func genScenario(r *rng.R, nGor, nRenders int, touch bool) *probe.Scenario {
 		}
 		sc.Comps[i] = ops
 	}
+	if rich {
+		sc.Rounds = 1 + r.Intn(4)
+	}
 	for g := 0; g < nGor; g++ {
 		gr := probe.Goroutine{Cap: -1, Slow: r.Intn(3)}
 		failing := r.Intn(4) == 0
+		if rich {
+			switch k := r.Intn(20); {
+			case k < 8:
+			case k < 13:
+				gr.Dest, gr.BufSize = probe.DestBufioBig, bigBufio[r.Intn(len(bigBufio))]
+			case k < 15:
+				gr.Dest, gr.BufSize = probe.DestBufioSmall, smallBufio[r.Intn(len(smallBufio))]
+			case k < 17:
+				gr.Dest = probe.DestOwnBuffer
+			default:
+				gr.Dest = probe.DestBytes
+			}
+			if gr.Dest != probe.DestSink {
+				failing = false
+			}
+			if r.Intn(3) == 0 {
+				gr.Nonce = fmt.Sprintf("n%dx%04x", g, r.Intn(65536))
+			}
+		}
 		if failing {
 			gr.Cap = r.Intn(400)
 		}
@@ -177,7 +292,28 @@ func genScenario(r *rng.R, nGor, nRenders int, touch bool) *probe.Scenario {
 			if failing {
 				c = r.Intn(nSmall)
 			}
-			gr.Renders = append(gr.Renders, probe.Render{C: c, Handler: r.Intn(4) == 0})
+			rd := probe.Render{C: c, Handler: r.Intn(4) == 0}
+			if rich {
+				if gr.Dest == probe.DestOwnBuffer {
+					rd.Handler = false
+				} else {
+					rd.Mw = r.Intn(3) == 0
+					if r.Intn(3) == 0 {
+						rd.Head = fmt.Sprintf("<!--head g%d r%d-->", g, m)
+					}
+					if r.Intn(3) == 0 {
+						rd.Tail = fmt.Sprintf("<!--tail g%d r%d-->", g, m)
+					}
+					rd.Flush = r.Intn(2) == 0
+				}
+				switch k := r.Intn(20); {
+				case k < 2:
+					rd.Fresh = 1
+				case k < 3:
+					rd.Fresh = 2
+				}
+			}
+			gr.Renders = append(gr.Renders, rd)
 		}
 		sc.Gor = append(sc.Gor, gr)
 	}
@@ -322,9 +458,9 @@ func sameResult(a, b probe.Result) bool {
 
 func Run(c *core.Ctx) {
 	c.Level = "proof"
-	c.Rule = "one goroutine's program (M renders of shared components built from W/L/O/N/E/F/C ops, through Render or templ.Handler, writer plain/slow/failing) = one case; distinct non-trivial = distinct (program, writer capacity, development mode) whose program contains a once block, a failing action, a flush or a handler render"
+	c.Rule = "one goroutine's program (M renders of shared components built from W/L/O/N/E/F/C/S ops - S = a CSS component or script template through RenderCSSItems/RenderScriptItems -, through Render, templ.Handler or ONE templ.NewCSSMiddleware instance with registered classes; destination a plain/slow/failing sink, the goroutine's own *bufio.Writer (16..65536 bytes) kept across its renders with headers/trailers it writes itself, a templ Buffer it holds, a *bytes.Buffer; with or without nonce; pool entries thrown away or garbage-collected between renders) = one case; distinct non-trivial = distinct (program, writer capacity, destination kind, development mode) whose program contains a once block, a failing action, a flush, a handler render, a middleware request, a class/script item or the goroutine's own buffered writes"
 	c.Trusted = append(c.Trusted,
-		"specification spec/Isolated.v (a render alone: private buffer, direct file reads)",
+		"specification spec/Isolated.v (a render alone: private buffer, private context value with its own set of emitted classes and scripts, direct file reads, its own writer possibly behind its own bufio.Writer)",
 		"the modelled actions are atomic and are the only accesses to shared state: validated, not proved, by the -race runs (Go race detector, sync.Pool and sync.Mutex semantics)",
 		"hand-built probe components copy the statement shape the generator emits (internal/c14/probe/probe_templ.go)",
 		"extraction: ExtrOcamlBasic only; ocaml/driver.ml", "Go harness internal/c14 and the Go toolchain")
@@ -332,12 +468,19 @@ func Run(c *core.Ctx) {
 		"each goroutine uses its own context and its own writer (the property's premise)",
 		"sync.Pool.Get returns some pooled object or a new one and nothing else touches pooled objects; atomic.AddInt64 and the mutex-protected section of getWatchedStrings are single atomic actions",
 		"the text files do not change during a run for C14_cache_linear (C14_cache_refresh covers a rewrite with a later modification time after 100 ms; within 100 ms of the cached modification time development mode serves the cached lines by design)",
-		"bufio's 4096-byte automatic flush is represented by explicit Flush actions; probe renders compared action by action stay below it")
+		"bufio's 4096-byte automatic flush is represented by explicit Flush actions; probe renders compared action by action stay below it",
+		"a goroutine's own bufio.Writer / held templ Buffer / bytes.Buffer stands in front of a writer that never fails (when its automatic flush happens is then unobservable in the final document); the goroutine flushes it itself when it has finished",
+		"interleaved runs: goroutines move one at a time (channel hand-over), so the observed interleavings are those of whole ops; simultaneous memory access is left to the -race runs")
 	c.Proofs()
 
+	if c.Replay != "" {
+		replayInterleaved(c)
+		return
+	}
 	traceTie(c)
 	plantedTie(c)
 	cacheTie(c)
+	interleavedTie(c)
 	raceRuns(c)
 }
 
@@ -356,7 +499,7 @@ func traceTie(c *core.Ctx) {
 	}
 	var cases []tcase
 	for i := 0; i < n; i++ {
-		sc := genScenario(c.Rng, 1, 1+c.Rng.Intn(3), false)
+		sc := genScenario(c.Rng, 1, 1+c.Rng.Intn(3), false, false)
 		g := sc.Gor[0]
 		// trace cases use the small components only, so that bufio never flushes by itself
 		for k := range g.Renders {
@@ -423,14 +566,14 @@ func classify(sc *probe.Scenario, g probe.Goroutine) string {
 	nontrivial := g.Cap >= 0
 	for _, a := range acts {
 		switch a[0] {
-		case 'O', 'E', 'F', 'b':
+		case 'O', 'E', 'F', 'b', 'M', 'S', 'w', 'o':
 			nontrivial = true
 		}
 	}
 	if !nontrivial {
 		return ""
 	}
-	return fmt.Sprintf("%d|%s", g.Cap, bytes.Join(acts, []byte{0}))
+	return fmt.Sprintf("%d|%d|%s", g.Cap, g.Dest, bytes.Join(acts, []byte{0}))
 }
 
 // ---------- (a2) planted stale buffers ----------
@@ -441,7 +584,7 @@ func plantedTie(c *core.Ctx) {
 	n := c.N(200, 3000)
 	reused, bad := 0, 0
 	for i := 0; i < n; i++ {
-		sc := genScenario(c.Rng, 1, 1+c.Rng.Intn(2), false)
+		sc := genScenario(c.Rng, 1, 1+c.Rng.Intn(2), false, false)
 		g := sc.Gor[0]
 		probe.Setup(sc)
 		ref := probe.RunGoroutine(g) // alone, before anything stale is planted
@@ -464,7 +607,7 @@ func plantedTie(c *core.Ctx) {
 	// the bytes.Buffer pool: a used buffer goes back, the next handler render must not see its bytes
 	badB := 0
 	for i := 0; i < n; i++ {
-		sc := genScenario(c.Rng, 1, 1, false)
+		sc := genScenario(c.Rng, 1, 1, false, false)
 		g := sc.Gor[0]
 		g.Renders[0].Handler = true
 		probe.Setup(sc)
@@ -581,12 +724,270 @@ func cacheTie(c *core.Ctx) {
 	c.Oblige("correspondence", "getWatchedStrings over file rewrites, deletions and lookups = model cache_lookup", bad == 0, fmt.Sprintf("%d event sequences, %d differ", n, bad))
 }
 
+// ---------- (a4) interleaved on an explicit schedule ----------
+
+// emptyPool throws away every Buffer the runtime pool holds (as in a new process).
+func emptyPool() {
+	pool := templruntime.VerifC14Pool()
+	saved := pool.New
+	pool.New = nil
+	for i := 0; i < 4096; i++ {
+		if pool.Get() == nil {
+			break
+		}
+	}
+	pool.New = saved
+}
+
+var destNames = []string{"sink", "own bufio.Writer >= templ's buffer", "own bufio.Writer < templ's buffer", "templ Buffer held by the goroutine", "bytes.Buffer"}
+
+// genSchedule: which goroutine moves next; uniform, in lockstep (everybody advances one gate in turn) or in bursts.
+func genSchedule(r *rng.R, n int) ([]int, string) {
+	var sched []int
+	switch r.Intn(3) {
+	case 0:
+		for i, l := 0, r.Intn(80); i < l; i++ {
+			sched = append(sched, r.Intn(n))
+		}
+		return sched, "uniform"
+	case 1:
+		first := r.Intn(n)
+		for i, l := 0, r.Intn(30); i < l; i++ {
+			for k := 0; k < n; k++ {
+				sched = append(sched, (first+k)%n)
+			}
+		}
+		return sched, "lockstep"
+	default:
+		for i, l := 0, r.Intn(12); i < l; i++ {
+			who := r.Intn(n)
+			for k, m := 0, 1+r.Intn(10); k < m; k++ {
+				sched = append(sched, who)
+			}
+		}
+		return sched, "bursts"
+	}
+}
+
+type ilOutcome struct {
+	refs, got  []probe.Result
+	frame      string // first move that changed another goroutine's destination
+	overlap    bool   // two requests were past the middleware before the first of them had rendered
+	freshToBig int    // renders into a goroutine's own big bufio.Writer that were served by a newly constructed pool entry
+	moves      int
+	freshBufs  int64
+}
+
+// runInterleaved: every goroutine alone first (the reference), then all of them on the schedule, starting like a new
+// process: an empty pool and a new middleware instance.
+func runInterleaved(sc *probe.Scenario, sched []int) ilOutcome {
+	var o ilOutcome
+	probe.Setup(sc)
+	for _, g := range sc.Gor {
+		emptyPool()
+		o.refs = append(o.refs, probe.RunGoroutine(g))
+	}
+	probe.Mw = probe.NewMw(sc)
+	emptyPool()
+	n := len(sc.Gor)
+	snap := make([][5]int, n)
+	first := true
+	pastMw := make([]bool, n) // past the middleware, page not yet rendered
+	lastFresh := atomic.LoadInt64(&probe.FreshBuffers)
+	probe.Hook = func(ev string, w io.Writer) {
+		if ev != "get" {
+			return
+		}
+		now := atomic.LoadInt64(&probe.FreshBuffers)
+		if now > lastFresh && probe.Moving >= 0 && probe.Moving < n && sc.Gor[probe.Moving].Dest == probe.DestBufioBig {
+			o.freshToBig++
+		}
+		lastFresh = now
+	}
+	defer func() { probe.Hook = nil }()
+	o.got = probe.Interleaved(sc, sched, func(v probe.Visit, cl []*probe.Client) {
+		o.moves++
+		lastFresh = atomic.LoadInt64(&probe.FreshBuffers)
+		for d := range cl {
+			now := cl[d].Snapshot()
+			if !first && d != v.Who && now != snap[d] && o.frame == "" {
+				o.frame = fmt.Sprintf("move %d (goroutine %d, up to %q) changed the destination of goroutine %d: bytes received/Write calls/Flusher calls/held by its own bufio.Writer/held by its own templ Buffer %v -> %v", o.moves, v.Who, v.Where, d, snap[d], now)
+			}
+			snap[d] = now
+		}
+		first = false
+		switch v.Where {
+		case "past-middleware":
+			for d := range pastMw {
+				if d != v.Who && pastMw[d] {
+					o.overlap = true
+				}
+			}
+			pastMw[v.Who] = true
+		case "render", "done":
+			pastMw[v.Who] = false
+		}
+	})
+	o.freshBufs = atomic.LoadInt64(&probe.FreshBuffers)
+	return o
+}
+
+// modelAgrees compares the stand-alone run of the specification (reply of "alone") with a result.
+func modelAgrees(a [][]byte, g probe.Goroutine, got probe.Result) bool {
+	if len(a) < 5 {
+		return false
+	}
+	marks := string(a[4])
+	if g.Dest == probe.DestBytes {
+		marks = "" // a *bytes.Buffer is no http.Flusher
+	}
+	return string(a[0]) == got.Out && string(a[2]) == strconv.Itoa(len(got.IDs)) && string(a[1]) == "1" && marks == marksString(got.Flushes)
+}
+
+type ilCase struct {
+	sc    *probe.Scenario
+	sched []int
+	mode  string
+	out   ilOutcome
+}
+
+func judgeInterleaved(c *core.Ctx, cases []ilCase, family string) (badProp, badTie, badFrame, badIDs int) {
+	var reqs []drv.Req
+	for _, tc := range cases {
+		for _, g := range tc.sc.Gor {
+			reqs = append(reqs, modelReq("alone", tc.sc, g, false))
+		}
+	}
+	res := c.Model(reqs)
+	k := 0
+	for ci, tc := range cases {
+		tc := tc
+		input := func(gi int) map[string]any {
+			in := map[string]any{"scenario": tc.sc, "schedule": tc.sched, "schedule_kind": tc.mode, "how": "vcheck C14 --replay <this file> runs the scenario on the schedule again"}
+			if gi >= 0 {
+				g := tc.sc.Gor[gi]
+				in["goroutine"] = gi
+				in["destination"] = destNames[g.Dest]
+				in["program"] = short(actsString(compileGoroutine(tc.sc, g, false)))
+			}
+			return in
+		}
+		if tc.out.frame != "" {
+			badFrame++
+			failc(c, "property", family+": other goroutines' destinations untouched", "another-goroutines-destination-touched", input(-1), tc.out.frame)
+		}
+		seen := map[int64]int{}
+		for gi, g := range tc.sc.Gor {
+			var a [][]byte
+			if k < len(res) {
+				a = res[k]
+			}
+			k++
+			c.Count(classify(tc.sc, g))
+			c.Hist("interleaved: destination " + destNames[g.Dest])
+			ref, got := tc.out.refs[gi], tc.out.got[gi]
+			if ci < 2 && gi == 0 {
+				c.Sample(map[string]any{"family": family, "program": short(actsString(compileGoroutine(tc.sc, g, false))), "destination": destNames[g.Dest], "schedule": tc.mode, "moves": tc.out.moves, "out": short(got.Out)})
+			}
+			refOK := modelAgrees(a, g, ref)
+			if !refOK {
+				badTie++
+				ao, am := "", ""
+				if len(a) >= 5 {
+					ao, am = string(a[0]), string(a[4])
+				}
+				failc(c, "tie", family+": model stand-alone output = the goroutine alone", "", input(gi), fmt.Sprintf("specification alone: out=%q flusher calls at %s | implementation alone: out=%q flusher calls at %s errs=%v", short(ao), am, short(ref.Out), marksString(ref.Flushes), ref.Errs))
+			}
+			if !sameResult(got, ref) || (refOK && !modelAgrees(a, g, got)) {
+				badProp++
+				failc(c, "property", family+": interleaved = alone", "output-differs-from-alone", input(gi),
+					fmt.Sprintf("alone: %s | interleaved with the others: %s", short(ref.String()), short(got.String())))
+			}
+			for _, id := range got.IDs {
+				if prev, dup := seen[id]; dup {
+					badIDs++
+					failc(c, "property", family+": once-handle ids", "duplicate-once-handle-id", input(gi), fmt.Sprintf("goroutines %d and %d obtained the same id %d", prev, gi, id))
+				}
+				seen[id] = gi
+			}
+		}
+	}
+	return
+}
+
+func interleavedTie(c *core.Ctx) {
+	old := runtime.GOMAXPROCS(1)
+	gc := debug.SetGCPercent(-1)
+	defer func() { runtime.GOMAXPROCS(old); debug.SetGCPercent(gc); runtime.GC() }()
+	t0 := time.Now()
+	n := c.N(400, 6000)
+	var cases []ilCase
+	overlaps, freshToBig, moves := 0, 0, 0
+	for i := 0; i < n; i++ {
+		nG := 2 + c.Rng.Intn(3)
+		sc := genScenario(c.Rng, nG, 1+c.Rng.Intn(3), false, true)
+		sched, mode := genSchedule(c.Rng, nG)
+		out := runInterleaved(sc, sched)
+		cases = append(cases, ilCase{sc, sched, mode, out})
+		c.Hist("interleaved: schedule " + mode)
+		if out.overlap {
+			overlaps++
+		}
+		freshToBig += out.freshToBig
+		moves += out.moves
+		if i%64 == 63 {
+			runtime.GC()
+		}
+	}
+	badProp, badTie, badFrame, badIDs := judgeInterleaved(c, cases, "interleaved")
+	c.Extra["interleaved_cases"] = n
+	c.Extra["interleaved_moves"] = moves
+	c.Extra["interleaved_s"] = time.Since(t0).Seconds()
+	c.Oblige("correspondence", "interleaved: every move leaves the other goroutines' destinations (bytes received, calls, bytes held by their own bufio.Writer / templ Buffer) untouched (C14_others_untouched on the binary)", badFrame == 0, fmt.Sprintf("%d scenarios, %d moves", n, moves))
+	c.Oblige("correspondence", "interleaved: each goroutine's bytes, flushes and errors = the goroutine alone = the specification's stand-alone run (C14_isolation on the binary)", badProp == 0, fmt.Sprintf("%d scenarios, %d goroutines differ", n, badProp))
+	c.Oblige("correspondence", "interleaved: model stand-alone output = each goroutine alone", badTie == 0, fmt.Sprintf("%d differ", badTie))
+	c.Oblige("correspondence", "interleaved: once-handle ids distinct across goroutines", badIDs == 0, "")
+	c.Oblige("side-condition", "interleaved: two requests were past the same middleware instance before the first of them rendered (the shared-registry observation is not vacuous)", overlaps > n/40, fmt.Sprintf("%d of %d scenarios", overlaps, n))
+	c.Oblige("side-condition", "interleaved: renders into a goroutine's own bufio.Writer >= templ's buffer were served by newly constructed pool entries (the adopted-writer observation is not vacuous)", freshToBig > n/40, fmt.Sprintf("%d renders in %d scenarios", freshToBig, n))
+}
+
+// replayInterleaved: vcheck C14 --replay <file>: the interleaved scenarios of the file's failures, again.
+func replayInterleaved(c *core.Ctx) {
+	var doc struct {
+		Failures []struct {
+			Input struct {
+				Scenario *probe.Scenario `json:"scenario"`
+				Schedule []int           `json:"schedule"`
+				Kind     string          `json:"schedule_kind"`
+			} `json:"input"`
+		} `json:"failures"`
+	}
+	b, err := os.ReadFile(c.Replay)
+	if err != nil || json.Unmarshal(b, &doc) != nil {
+		c.Oblige("correspondence", "replay file readable", false, fmt.Sprint(err))
+		return
+	}
+	old := runtime.GOMAXPROCS(1)
+	gc := debug.SetGCPercent(-1)
+	defer func() { runtime.GOMAXPROCS(old); debug.SetGCPercent(gc) }()
+	var cases []ilCase
+	for _, f := range doc.Failures {
+		if f.Input.Scenario == nil {
+			continue
+		}
+		cases = append(cases, ilCase{f.Input.Scenario, f.Input.Schedule, f.Input.Kind, runInterleaved(f.Input.Scenario, f.Input.Schedule)})
+	}
+	badProp, badTie, badFrame, badIDs := judgeInterleaved(c, cases, "interleaved")
+	c.Oblige("correspondence", "replayed interleaved scenarios behave as alone", badProp+badTie+badFrame+badIDs == 0, fmt.Sprintf("%d scenarios replayed", len(cases)))
+}
+
 // ---------- (b) the -race subprocess ----------
 type raceOut struct {
 	Ref     []probe.Result `json:"ref"`
 	Got     []probe.Result `json:"got"`
 	Touches int            `json:"touches"`
 	Dev     bool           `json:"dev"`
+	Fresh   int64          `json:"fresh"`
 }
 
 func buildRace(c *core.Ctx) (string, error) {
@@ -662,11 +1063,13 @@ func raceRuns(c *core.Ctx) {
 	rounds := c.N(2, 3)
 	totalGor, totalRenders, races := 0, 0, 0
 	badProp, badTie, badIDs := 0, 0, 0
+	mwRenders, freshSteps := 0, 0
+	var freshBufs int64
 	for _, dev := range []bool{false, true} {
 		for round := 0; round < rounds; round++ {
 			var scs []*probe.Scenario
 			for i := 0; i < nSc; i++ {
-				scs = append(scs, genScenario(c.Rng, nGor, nRen, dev && i%2 == 0))
+				scs = append(scs, genScenario(c.Rng, nGor, nRen, dev && i%2 == 0, true))
 			}
 			outs, stderr, code, err := runRace(bin, scs, dev)
 			mode := "TEMPL_DEV_MODE=false"
@@ -711,6 +1114,15 @@ func raceRuns(c *core.Ctx) {
 					}
 					c.Count(key)
 					c.Hist(fmt.Sprintf("%s writer=%s slow=%d", mode, map[bool]string{true: "failing", false: "ok"}[g.Cap >= 0], g.Slow))
+					c.Hist("concurrent: destination " + destNames[g.Dest])
+					for _, rd := range g.Renders {
+						if rd.Mw {
+							mwRenders++
+						}
+						if rd.Fresh != 0 {
+							freshSteps++
+						}
+					}
 					if gi < len(o.Got) && gi < len(o.Ref) {
 						got, ref := o.Got[gi], o.Ref[gi]
 						if totalGor <= 2 {
@@ -731,7 +1143,7 @@ func raceRuns(c *core.Ctx) {
 						}
 						if k < len(res) && len(res[k]) >= 3 {
 							a := res[k]
-							if string(a[0]) != got.Out || string(a[2]) != strconv.Itoa(len(got.IDs)) || string(a[1]) != "1" || (len(a) >= 5 && string(a[4]) != marksString(got.Flushes)) {
+							if !modelAgrees(a, g, got) {
 								badTie++
 								failc(c, "tie", "model-output-vs-concurrent", "", map[string]any{"mode": mode, "goroutine": gi, "program": short(actsString(compileGoroutine(sc, g, dev))), "cap": g.Cap},
 									fmt.Sprintf("model out %q ids %s finished %s | real out %q ids %d", short(string(a[0])), a[2], a[1], short(got.Out), len(got.IDs)))
@@ -744,6 +1156,7 @@ func raceRuns(c *core.Ctx) {
 					}
 					k++
 				}
+				freshBufs += o.Fresh
 				if dev && sc.Touch {
 					c.Hist(fmt.Sprintf("dev text file touched during run: %v", o.Touches > 0))
 				}
@@ -753,6 +1166,9 @@ func raceRuns(c *core.Ctx) {
 	c.Extra["race_goroutines"] = totalGor
 	c.Extra["race_renders"] = totalRenders
 	c.Extra["race_total_s"] = time.Since(t0).Seconds()
+	c.Extra["race_requests_through_middleware"] = mwRenders
+	c.Extra["race_pool_emptied_or_collected"] = freshSteps
+	c.Extra["race_buffers_constructed_by_pool"] = freshBufs
 	c.Oblige("correspondence", "no data race reported in N x M concurrent renders (with and without TEMPL_DEV_MODE)", races == 0, fmt.Sprintf("%d goroutine-programs, %d renders", totalGor, totalRenders))
 	c.Oblige("correspondence", "each goroutine's bytes, flushes and errors under concurrency = its sequential reference (C14_isolation on the binary)", badProp == 0, fmt.Sprintf("%d goroutine-programs, %d differ", totalGor, badProp))
 	c.Oblige("correspondence", "model stand-alone output = each goroutine's concurrent output", badTie == 0, fmt.Sprintf("%d goroutine-programs, %d differ", totalGor, badTie))
